@@ -272,6 +272,108 @@ def c07_explicit(ctx, param, unit, pref_a, pref_b):
 
 
 # ---------------------------------------------------------------------------------------------------------------------------------
+# the same RECEIVER object asked twice with the same bare number, the preferred unit changed in between (and an explicit quantity first)
+
+def _receivers():
+    p = pybc()
+    U = p.Unit
+    dm = lambda: p.DragModel(0.3, p.TableG7)
+    atmo = _atmo(p)
+
+    def hit():
+        rows = [mkrow(p, time=float(i), dist_ft=100.0 * i, drop_ft=[0.0, 0.5, 0.2, -1.0, -3.0][i]) for i in range(5)]
+        return p.HitResult(p.Shot(p.Weapon(), p.Ammo(dm(), U.FPS(2700)), atmo=atmo), rows, True)
+
+    def ds(hr, **kw):
+        d = hr.danger_space(kw.get('at', U.Foot(250.0)), kw.get('h', U.Foot(1.0)), kw.get('look', U.Radian(0.0)))
+        return {'at': hr.trajectory.index(d.at_range), 'begin': hr.trajectory.index(d.begin), 'end': hr.trajectory.index(d.end), 'h': d.target_height, 'look': d.look_angle}
+
+    def calc():
+        c = p.Calculator()
+        rec = {}
+
+        class Rec:
+            def zero_angle(self, shot, distance):
+                rec['distance'] = distance
+                return p.Angular.Radian(0.01)
+
+            def trajectory(self, shot, max_range, dist_step, extra_data=False, time_step=0.0):
+                rec['max_range'], rec['dist_step'] = max_range, dist_step
+                return []
+        c._calc = Rec()
+        c._rec = rec
+        c._shot = p.Shot(p.Weapon(), p.Ammo(dm(), U.FPS(2700)), atmo=atmo)
+        return c
+
+    def via(c, method, *a):
+        getattr(c, method)(c._shot, *a)
+        return dict(c._rec)
+    return {
+        'Ammo.get_velocity_for_temp': ('temperature', lambda: p.Ammo(dm(), U.MPS(800), U.Celsius(15), 0.5, True), lambda r, x: r.get_velocity_for_temp(x)),
+        'Ammo.calc_powder_sens.temperature': ('temperature', lambda: p.Ammo(dm(), U.MPS(800), U.Celsius(15)), lambda r, x: r.calc_powder_sens(U.MPS(820), x)),
+        'Ammo.calc_powder_sens.velocity': ('velocity', lambda: p.Ammo(dm(), U.MPS(800), U.Celsius(15)), lambda r, x: r.calc_powder_sens(x, U.Celsius(30))),
+        'Sight.sfp_target_distance': ('distance', lambda: p.Sight('SFP', U.Yard(100), U.Mil(0.1), U.Mil(0.2)), lambda r, x: r._adjust_sfp_reticle_steps(x, 10.0)),
+        'danger_space.at_range': ('distance', hit, lambda r, x: ds(r, at=x)),
+        'danger_space.target_height': ('distance', hit, lambda r, x: ds(r, h=x)),
+        'danger_space.look_angle': ('angular', hit, lambda r, x: ds(r, look=x)),
+        'Calculator.set_weapon_zero': ('distance', calc, lambda r, x: via(r, 'set_weapon_zero', x)),
+        'Calculator.barrel_elevation_for_target': ('distance', calc, lambda r, x: via(r, 'barrel_elevation_for_target', x)),
+        'Calculator.fire.range': ('distance', calc, lambda r, x: via(r, 'fire', x, U.Yard(10))),
+        'Calculator.fire.step': ('distance', calc, lambda r, x: via(r, 'fire', U.Yard(1000), x)),
+        'Atmo.icao.altitude': ('distance', lambda: p.Atmo, lambda r, x: r.icao(x)),
+        'Unit.call': ('distance', lambda: p.PreferredUnits, lambda r, x: r.distance(x)),
+    }
+
+
+RECEIVER_NAMES = ['Ammo.get_velocity_for_temp', 'Ammo.calc_powder_sens.temperature', 'Ammo.calc_powder_sens.velocity', 'Sight.sfp_target_distance',
+                  'danger_space.at_range', 'danger_space.target_height', 'danger_space.look_angle', 'Calculator.set_weapon_zero',
+                  'Calculator.barrel_elevation_for_target', 'Calculator.fire.range', 'Calculator.fire.step', 'Unit.call']
+RECEIVER_SLOT = {'Ammo.get_velocity_for_temp': 'temperature', 'Ammo.calc_powder_sens.temperature': 'temperature', 'Ammo.calc_powder_sens.velocity': 'velocity',
+                 'Sight.sfp_target_distance': 'distance', 'danger_space.at_range': 'distance', 'danger_space.target_height': 'distance',
+                 'danger_space.look_angle': 'angular', 'Calculator.set_weapon_zero': 'distance', 'Calculator.barrel_elevation_for_target': 'distance',
+                 'Calculator.fire.range': 'distance', 'Calculator.fire.step': 'distance', 'Atmo.icao.altitude': 'distance', 'Unit.call': 'distance'}
+
+
+def _cfg_again(tier):
+    out = []
+    eu = enum_units()
+    for name in RECEIVER_NAMES:
+        units = eu[SLOT_DIM[RECEIVER_SLOT[name]]]
+        pairs = [(units[i], units[(i + 1) % len(units)]) for i in range(len(units))]
+        if tier == 'quick':
+            pairs = pairs[:3]
+        for a, b in pairs:
+            out.append({'param': name, 'first': a, 'second': b})
+    return out
+
+
+@harness('C07.again', 'C07', configs=_cfg_again, functions=FUNCS, engine_opts={'div_check': True, 'pin_check': True}, cost=2,
+         must_reach=['check:same_number_read_in_the_unit_now_preferred'],
+         bounds='12 methods that take a float-or-quantity, called on ONE receiver object three times: an explicit quantity whose base magnitude equals the bare number, then the bare '
+                'number n (symbolic) under preferred unit A, then the same n under preferred unit B (quick: 3 unit pairs per method): each answer equals that of a fresh receiver '
+                'given the explicit quantity - nothing is remembered from the earlier calls')
+def c07_again(ctx, param, first, second):
+    p = pybc()
+    slot, make, call = _receivers()[param]
+    A, B = getattr(p.Unit, first), getattr(p.Unit, second)
+    lo, hi = RANGES[SLOT_DIM[slot]]
+    n = ctx.real('n', lo, hi)
+    r = make()
+    with with_preferred(**{slot: A}):
+        # an explicit quantity whose BASE-unit magnitude is the number n (so that it hashes / compares like the bare number)
+        q0 = A(0.0)
+        q0._value = n
+        _run(lambda: call(r, q0))
+        got_a = _run(lambda: call(r, n))
+        want_a = _run(lambda: call(make(), A(n)))
+    with with_preferred(**{slot: B}):
+        got_b = _run(lambda: call(r, n))
+        want_b = _run(lambda: call(make(), B(n)))
+    compare(ctx, 'same_number_read_in_the_unit_now_preferred', snap(got_a), snap(want_a), {'param': param, 'call': 'second: bare under ' + first})
+    compare(ctx, 'same_number_read_in_the_unit_now_preferred', snap(got_b), snap(want_b), {'param': param, 'call': 'third: bare under ' + second})
+
+
+# ---------------------------------------------------------------------------------------------------------------------------------
 # whole computations with explicit inputs under different preferred-unit assignments (carriers, symbolic request)
 
 def _cfg_compute(tier):
@@ -280,6 +382,8 @@ def _cfg_compute(tier):
     for (c, step, wind) in plan:
         for op in ('fire', 'fire_extra', 'zero', 'danger_space'):
             out.append({'carrier': c, 'step_ft': step, 'wind': wind, 'op': op})
+    # a wind whose until-distance was assigned as an explicit quantity after construction (its unit label is its own, the other wind's is the preferred one)
+    out.append({'carrier': 'A', 'step_ft': 100.0, 'wind': 'two', 'op': 'fire_wind_relabelled'})
     return out
 
 
@@ -288,14 +392,15 @@ def _assignments(p):
     eu = enum_units()
     last = {sl: getattr(p.Unit, eu[d][-1]) for sl, d in SLOT_DIM.items()}
     mid = {sl: getattr(p.Unit, eu[d][len(eu[d]) // 2]) for sl, d in SLOT_DIM.items()}
-    return [('imperial', None), ('metric', None), ('mixed', None), ('last', last), ('middle', mid)]
+    small = dict(last, distance=p.Unit.Inch, temperature=p.Unit.Kelvin)
+    return [('imperial', None), ('metric', None), ('mixed', None), ('last', last), ('middle', mid), ('inch / kelvin', small)]
 
 
 @harness('C07.compute', 'C07', configs=_cfg_compute, functions=FUNCS, cost=12, engine_opts={'div_check': False, 'nl_axioms_in_feasibility': False},
          must_reach=['check:result_independent_of_preferred_units'],
          bounds='fire (plain / extra), set_weapon_zero and danger_space on carriers A, B [thorough: + C, finer A] with every input an explicit quantity and SYMBOLIC range / '
                 'record step (cells of the request plane; zero distance concrete): run under the three shipped presets and under two assignments that set all 15 slots to '
-                'other units of their dimension; every row field identical (doubles bit-for-bit, symbolic fields as identical terms)')
+                'other units of their dimension (one with inches / kelvin); a variant with a wind whose until-distance carries its own unit label; every row field identical (doubles bit-for-bit, symbolic fields as identical terms)')
 def c07_compute(ctx, carrier, step_ft, wind, op):
     from harness import carriers
     p = pybc()
@@ -309,8 +414,11 @@ def c07_compute(ctx, carrier, step_ft, wind, op):
                 {'imperial': p.loadImperialUnits, 'metric': p.loadMetricUnits, 'mixed': p.loadMixedUnits}[name]()
             calc, shot = carriers.make(carrier, step_ft, wind)
             R, S = U.Foot(R0), U.Foot(S0)
+            if op == 'fire_wind_relabelled':
+                far = shot.winds[-1]
+                far.until_distance = U.Meter(far.until_distance >> U.Meter)
             try:
-                if op == 'fire':
+                if op in ('fire', 'fire_wind_relabelled'):
                     out = [tuple(getattr(x, 'raw_value', x) for x in r) for r in calc.fire(shot, R, S).trajectory]
                 elif op == 'fire_extra':
                     out = [tuple(getattr(x, 'raw_value', x) for x in r) for r in calc.fire(shot, R, S, True).trajectory]
